@@ -37,7 +37,7 @@ struct Obj {
     float pf0, pf1, pf2, pf3, pf4, pf5;
     int g1;
     // rParamI
-    int pi0, pi1, pi2, pi3, pi4, pi5;
+    int pi0, pi1, pi2, pi3, pi4, pi5, pi6, pi7;
     short ps;
     int g2;
     // rOption
@@ -56,6 +56,8 @@ struct Obj {
     int g5;
     char str16[16];
     int g6;
+    char strf[6];
+    int g6b;
     // arrays
     float af[4];
     int g7;
@@ -86,12 +88,13 @@ struct Obj {
     {
         pc = 5; puc = 100; pcn = -3; pcu = -77; pcs = 300;
         pf0 = 0.5f; pf1 = -1000.25f; pf2 = 1.0f; pf3 = -1.0f; pf4 = 440.0f; pf5 = 0.0f;
-        pi0 = 1; pi1 = 123456789; pi2 = 0; pi3 = -7; pi4 = 500000; pi5 = 3; ps = -300;
+        pi0 = 1; pi1 = 123456789; pi2 = 0; pi3 = -7; pi4 = 500000; pi5 = 3; pi6 = 5; pi7 = -5; ps = -300;
         po0 = 1; po1 = GREEN; po2 = 5; po3 = 2; po4 = 0;
         pt = false;
         memset(str8, 0, sizeof(str8)); strcpy(str8, "abc");
         str1[0] = 0;
         memset(str16, 0, sizeof(str16)); strcpy(str16, "hello world");
+        memcpy(strf, "full!!", 6);      // no terminator: only rStringCb's own one ends the string
         af[0] = 0.f; af[1] = 1.f; af[2] = -1.5f; af[3] = 2.25f;
         afs[0] = 3.5f;
         for(int i = 0; i < 12; ++i) afl[i] = 0.25f * i;
@@ -104,7 +107,7 @@ struct Obj {
         aoe[0] = TEAL; aoe[1] = RED;
         a2x[0] = 1.f; a2x[1] = 2.f; a2x[2] = 3.f;
         v9[0] = 9; v9[1] = 8; v9[2] = 7;
-        g0 = g1 = g2 = g3 = g4 = g5 = g6 = g7 = g8 = g9 = g10 = g11 = g12 = g13 = g14 = g15 = g16 = g17 = g18 = 0x5a5a5a5a;
+        g0 = g1 = g2 = g3 = g4 = g5 = g6 = g6b = g7 = g8 = g9 = g10 = g11 = g12 = g13 = g14 = g15 = g16 = g17 = g18 = 0x5a5a5a5a;
     }
     static const rtosc::Ports ports;
 };
@@ -130,6 +133,8 @@ const rtosc::Ports Obj::ports = {
     rParamI(pi3, rMap(max, -1), "upper bound only"),
     rParamI(pi4, rLinear(0, 1000000), "large range"),
     rParamI(pi5, rLinear(-2.5, 7.9), "fractional bounds on an integer port"),
+    rParamI(pi6, rLinear(2.5, 7.9), "positive non-integral minimum"),
+    rParamI(pi7, rLinear(-7.9, -2.5), "negative non-integral maximum"),
     rParamI(ps, rLinear(-1000, 1000), "short storage"),
     rOption(po0, rOptions(red, blue, green, teal), "no bounds"),
     rOption(po1, rOptions(red, blue, green, teal), rLinear(0, 3), "enum storage, bounds"),
@@ -140,6 +145,7 @@ const rtosc::Ports Obj::ports = {
     rString(str8, 8, "string"),
     rString(str1, 1, "string of capacity 1"),
     rString(str16, 16, "string"),
+    rString(strf, 6, "field without terminator before the first set"),
     rArrayF(af, 4, rLinear(-1.5, 2.25), "float array"),
     rArrayF(afs, 1, "float array of length 1, no bounds"),
     rArrayF(afl, 12, rMap(min, 0.1), "two-digit indices"),
@@ -177,11 +183,11 @@ struct Desc {
 static const Desc descs[] = {
     D(pc, 'P', "i8"), D(puc, 'P', "u8"), D(pcn, 'P', "i8"), D(pcu, 'P', "i8"), D(pcs, 'P', "i16"),
     D(pf0, 'F', "f32"), D(pf1, 'F', "f32"), D(pf2, 'F', "f32"), D(pf3, 'F', "f32"), D(pf4, 'F', "f32"), D(pf5, 'F', "f32"),
-    D(pi0, 'I', "i32"), D(pi1, 'I', "i32"), D(pi2, 'I', "i32"), D(pi3, 'I', "i32"), D(pi4, 'I', "i32"), D(pi5, 'I', "i32"),
+    D(pi0, 'I', "i32"), D(pi1, 'I', "i32"), D(pi2, 'I', "i32"), D(pi3, 'I', "i32"), D(pi4, 'I', "i32"), D(pi5, 'I', "i32"), D(pi6, 'I', "i32"), D(pi7, 'I', "i32"),
     D(ps, 'I', "i16"),
     D(po0, 'O', "i32"), D(po1, 'O', "i32"), D(po2, 'O', "i32"), D(po3, 'O', "u8"), D(po4, 'O', "i32"),
     D(pt, 'T', "b"),
-    DA(str8, 'S', "s"), DA(str1, 'S', "s"), DA(str16, 'S', "s"),
+    DA(str8, 'S', "s"), DA(str1, 'S', "s"), DA(str16, 'S', "s"), DA(strf, 'S', "s"),
     DA(af, 'f', "f32"), DA(afs, 'f', "f32"), DA(afl, 'f', "f32"),
     DA(at, 't', "b"), DA(ats, 't', "b"),
     DA(ai, 'i', "i32"), DA(aic, 'i', "i8"), DA(ail, 'i', "i32"),
